@@ -116,6 +116,26 @@ LANG_FAULTS = [
     ('unknown-tal-statement', '<p tal:foo="1">x</p>', r'<p (tal:foo="1")'),
     ('unknown-metal-statement', '<p metal:foo="1">x</p>', r'<p (metal:foo="1")'),
     ('unknown-i18n-statement', '<p i18n:foo="1">x</p>', r'<p (i18n:foo="1")'),
+    ('statement-of-another-namespace', '<p tal:translate="">x</p>', r'<p (tal:translate="")'),
+    ('statement-of-another-namespace', '<p tal:domain="d">x</p>', r'<p (tal:domain="d")'),
+    ('statement-of-another-namespace', '<p tal:name="n">x</p>', r'<p (tal:name="n")'),
+    ('statement-of-another-namespace', '<p tal:fill-slot="s">x</p>', r'<p (tal:fill-slot="s")'),
+    ('statement-of-another-namespace', '<p tal:use-macro="m">x</p>', r'<p (tal:use-macro="m")'),
+    ('statement-of-another-namespace', '<p tal:define-macro="m">x</p>', r'<p (tal:define-macro="m")'),
+    ('statement-of-another-namespace', '<p i18n:content="x">x</p>', r'<p (i18n:content="x")'),
+    ('statement-of-another-namespace', '<p i18n:repeat="a b">x</p>', r'<p (i18n:repeat="a b")'),
+    ('statement-of-another-namespace', '<p i18n:on-error="x">x</p>', r'<p (i18n:on-error="x")'),
+    ('statement-of-another-namespace', '<p i18n:define="a 1">x</p>', r'<p (i18n:define="a 1")'),
+    ('statement-of-another-namespace', '<p i18n:define-macro="m">x</p>', r'<p (i18n:define-macro="m")'),
+    ('statement-of-another-namespace', '<p i18n:case="1">x</p>', r'<p (i18n:case="1")'),
+    ('statement-of-another-namespace', '<p metal:define="a 1">x</p>', r'<p (metal:define="a 1")'),
+    ('statement-of-another-namespace', '<p metal:condition="x">x</p>', r'<p (metal:condition="x")'),
+    ('statement-of-another-namespace', '<p metal:translate="">x</p>', r'<p (metal:translate="")'),
+    ('statement-of-another-namespace', '<p metal:attributes="a 1">x</p>', r'<p (metal:attributes="a 1")'),
+    ('statement-of-another-namespace', '<p metal:name="n">x</p>', r'<p (metal:name="n")'),
+    ('statement-of-another-namespace', '<tal:block translate="">x</tal:block>', r'<tal:block (translate="")'),
+    ('statement-of-another-namespace', '<i18n:block content="x">x</i18n:block>', r'<i18n:block (content="x")'),
+    ('statement-of-another-namespace', '<metal:block define="a 1">x</metal:block>', r'<metal:block (define="a 1")'),
     ('content-and-replace', '<p tal:content="a" tal:replace="b">x</p>', r'(<p [^>]*>)'),
     ('case-without-switch', '<p tal:case="1">x</p>', r'(tal:case="1")'),
     ('bad-define-syntax', '<p tal:define="1x 2">x</p>', r'(tal:define="1x 2")'),
